@@ -51,7 +51,17 @@ impl Nonce {
             .then_some(())
             .ok_or_else(|| StunError::new(StunErrorType::InvalidParam, "Not nonce cookie"))?;
 
-        let flags = &self.as_str()[NONCE_COOKIE_HEADER.len()..NONCE_COOKIE_HEADER.len() + 4];
+        // The security features are four ASCII (base64) characters. Slice by bytes
+        // in a checked way, the nonce can contain multi-byte characters
+        let flags = self
+            .as_str()
+            .get(NONCE_COOKIE_HEADER.len()..NONCE_COOKIE_HEADER.len() + 4)
+            .ok_or_else(|| {
+                StunError::new(
+                    StunErrorType::InvalidParam,
+                    "Error decoding base64 security features",
+                )
+            })?;
         let mut bytes = [0x00; 4];
         let size = BASE64_STANDARD
             .decode_slice(flags, &mut bytes)
